@@ -15,6 +15,8 @@ def paint_run(c, tier):
         c.add_tlc(sim, "feature stacks of 3 and 4 (simulation)")
         beh += sim.behaviours
     beh = list(dict.fromkeys(beh))
+    if not any('"unlisted-labels"' in b[:300] for b in beh):
+        raise tlc.SetupError("Paint.tla did not emit the unlisted-label behaviours")
     res = replay.replay(exe, beh, shards=16)
     return beh, res, quick
 
@@ -30,8 +32,10 @@ def run(tier):
     c.coverage["distinct_nontrivial"] = sum(1 for b in beh if '"last:none"' not in b)
     c.coverage["rule"] = ("every feature list TLC builds from the catalogue (6 feature types x {cover, miss horizontally, miss in depth} x "
                           "model assignments varying temperature / composition / grains operations one kind at a time, plus full and empty "
-                          "assignments and tag strings); non-trivial = at least one feature covers the probe; distinct = distinct TLC states")
-    c.assumptions += ["uniform models only (the operation algebra is what is checked); thermal expansion 0 so the background is exactly Tp",
+                          "assignments, lists of two models of a kind and tag strings); every kind of composition model a feature type offers (uniform, smooth, "
+                          "tian water content, random) x 4 operations over a painted base: the labels it does not list are cleared by replace and kept "
+                          "otherwise; non-trivial = at least one feature covers the probe; distinct = distinct TLC states")
+    c.assumptions += ["feature stacks use uniform models (the operation algebra is what is checked); thermal expansion 0 so the background is exactly Tp",
                       "grains compared with 1e-12 absolute tolerance when a slab/fault covers the probe (they average orientations through quaternions), exactly otherwise",
                       "velocity asserted only when the last covering feature has a velocity model (the statement does not say velocity is left as it was)"]
     return c.finish()
